@@ -127,12 +127,23 @@ Definition set_input (T : table) (tl : list (id * nat)) (ps : list port) (ins : 
   then Some (zip_upd ps ins (field_of name) (fun l => if dotted name then l ++ [src] else [src]))
   else None.
 
+(* strconv.Atoi on the index of a disconnect request (the request's text, not a saved name): an optional sign is
+   accepted — "+k" is k, "-0" is 0, any other negative index makes reflect's slicing panic *)
+Definition atoi_idx (s : string) : option N :=
+  match s with
+  | String c r =>
+      if Ascii.eqb c "+"%char then atoi r
+      else if Ascii.eqb c "-"%char then match atoi r with Some 0 => Some 0 | _ => None end
+      else atoi s
+  | EmptyString => None
+  end.
+
 (* SetInput(name, nil): "F.k" removes element k of the slice (strconv.Atoi, then reflect slicing: k < len),
    an undotted name zeroes the field — a slice field is emptied as a whole *)
 Definition clear_input (ps : list port) (ins : list (list id)) (name : string) : option (list (list id)) :=
   match lsplit name with
   | Some (f, rest) =>
-      do idx <- atoi rest;
+      do idx <- atoi_idx rest;
       do p <- find_port ps f;
       do l <- port_val ps ins f;
       if p_array p && (idx <? N.of_nat (length l))
